@@ -25,7 +25,7 @@ ASSUMPTIONS = [
     "virtual clock: asyncio timers fire in deadline order exactly as on a real clock; wall time is only a watchdog",
     "one caller at a time (concurrency is C06)",
 ]
-MUST = ["silent_request_after_failed_connections", "stale_answer_while_next_request_in_flight", "requests_around_transaction_id_wrap", "stale_fragment_while_idle", "auto_detected_object_silent", "public_entry_points", "truncated_answer", "stale_datagram_while_idle", "retry_branch", "max_retries_branch", "fragment_rearm", "immediate_retry_invalid", "tcp_connect_error",
+MUST = ["aa55_answers_with_wrapping_checksum", "silent_request_after_failed_endpoint", "silent_request_after_failed_connections", "stale_answer_while_next_request_in_flight", "requests_around_transaction_id_wrap", "stale_fragment_while_idle", "auto_detected_object_silent", "public_entry_points", "truncated_answer", "stale_datagram_while_idle", "retry_branch", "max_retries_branch", "fragment_rearm", "immediate_retry_invalid", "tcp_connect_error",
         "connect_hang_bounded", "silent_exact", "success", "rejected"]
 EXHAUSTIVE = {"quick": True, "thorough": True}
 
@@ -239,6 +239,9 @@ def plan(tier, seed):
     for ka in (False, True):
         specs.append({"mode": "exhaustive", "transport": "udp", "framing": "aa55", "ka": ka, "T": 1,
                       "R": 1 if tier == "quick" else 2, "chunk": 0, "chunks": 1})
+        # ... and with answers whose bytes add up to more than 0xFFFF (255 payload bytes of 0xFF: the 16-bit checksum wraps)
+        specs.append({"mode": "exhaustive", "transport": "udp", "framing": "aa55", "ka": ka, "T": 1, "R": 1, "chunk": 0, "chunks": 1,
+                      "aa55_payload": "ff" * 255})
     # every truncation length of the answer, as a lone datagram / segment (0 bytes .. whole frame minus one)
     for transport, framing in (("udp", "rtu"), ("tcp", "tcp"), ("udp", "aa55")):
         for ka in (False, True):
@@ -268,6 +271,9 @@ def run_shard(spec):
                 continue
             sc = scenario(spec["transport"], spec["framing"], spec["ka"], spec["T"], spec["R"], list(script))
             sc["hops"] = spec.get("hops", 0)
+            if spec.get("aa55_payload"):
+                sc["aa55_payload"] = spec["aa55_payload"]
+                part.count("aa55_answers_with_wrapping_checksum")
             run_case(sc, part)
     elif mode == "then_silent":
         # (no symbol that can deliver something AFTER request 1 has ended: without a correlation id a late or
@@ -288,6 +294,13 @@ def run_shard(spec):
                     for script in (["now"], ["drop", "now"]):
                         run_case(scenario_then_silent("tcp", "tcp", spec["ka"], spec["T"], R, script, connect=[outcome] * nfail), part)
                         part.count("silent_request_after_failed_connections")
+        if spec["transport"] == "udp":
+            # the datagram endpoint of request 1 cannot be opened (no route / packet filter), request 2 meets a silent inverter
+            for outcome in ("unreach", "perm"):
+                for nfail in (1, 2):
+                    for script in (["now"], ["drop", "now"]):
+                        run_case(scenario_then_silent("udp", spec["framing"], spec["ka"], spec["T"], R, script, connect=[outcome] * nfail), part)
+                        part.count("silent_request_after_failed_endpoint")
         for D in (0.0, 0.5, 1.0, 2.5):
             for hops in range(0, 8):        # arrival phase of the stale datagram relative to the caller's wake-up
                 run_case(scenario_idle_garbage(spec["transport"], spec["framing"], spec["ka"], spec["T"], R, D * spec["T"], hops), part)
